@@ -14,7 +14,8 @@ call).
 import Sqfs.Model.Sort
 import Sqfs.Model.FsTree
 namespace Sqfs.C17SortTree
-open Sqfs.Sort Sqfs.FsTree
+open Sqfs.Sort
+open Sqfs.FsTree hiding FileEnt sortFileList sortFiles
 
 /-- the `fstree_t` after `fstree_sort_files` -/
 structure Sorted where
